@@ -30,6 +30,9 @@ type caseC17 struct {
 	Fn      string   `json:"fn"`      // HashToGroup | EncodeToGroup | HashToScalar
 	Msg     string   `json:"msg"`
 	Dst     string   `json:"dst"`
+	// Wrap: the program re-registers SHA-256 in the crypto registry with a correct implementation that exposes
+	// only the hash.Hash methods (as an instrumented or third-party implementation would).
+	Wrap bool `json:"wrap,omitempty"`
 }
 
 var importPool = []string{"fmt", "os", "strings", "encoding/hex", "math/big", "crypto/rand", "crypto/sha512", "crypto/md5", "hash/fnv",
@@ -71,6 +74,21 @@ func linksSha256(pkg string) bool {
 	linksDone[pkg], linksSHA[pkg] = true, has
 	return has
 }
+
+const wrapSrc = `package main
+
+import (
+	"crypto"
+	"crypto/sha256"
+	"hash"
+)
+
+type onlyHash struct{ hash.Hash }
+
+func init() {
+	crypto.RegisterHash(crypto.SHA256, func() hash.Hash { return onlyHash{sha256.New()} })
+}
+`
 
 const mainTemplate = `package main
 
@@ -119,7 +137,8 @@ func runC17(c caseC17, o *gen.Obs) error {
 	o.ClassIf(len(imports) == 0, "imports:none")
 	o.ClassIf(!otherLinks, "sha256-not-linked-by-others")
 	o.ClassIf(otherLinks, "sha256-linked-by-others")
-	o.NonTrivialIf(!otherLinks)
+	o.ClassIf(c.Wrap, "registry-replaced")
+	o.NonTrivialIf(!otherLinks || c.Wrap)
 
 	dir, err := os.MkdirTemp("", "verif-c17-")
 	if err != nil {
@@ -137,6 +156,11 @@ func runC17(c caseC17, o *gen.Obs) error {
 	}
 	if err := os.WriteFile(filepath.Join(dir, "go.mod"), []byte(gomod), 0o644); err != nil {
 		return &gen.Inconclusive{Msg: err.Error()}
+	}
+	if c.Wrap {
+		if err := os.WriteFile(filepath.Join(dir, "wrap.go"), []byte(wrapSrc), 0o644); err != nil {
+			return &gen.Inconclusive{Msg: err.Error()}
+		}
 	}
 	build := exec.Command("go", "build", "-o", "prog", ".")
 	build.Dir, build.Env = dir, goEnv()
@@ -164,6 +188,8 @@ func runC17(c caseC17, o *gen.Obs) error {
 		cls := c.Fn + "/program-fails"
 		if strings.Contains(all, "requested hash function") {
 			cls = c.Fn + "/hash-not-linked"
+		} else if c.Wrap {
+			cls = c.Fn + "/depends-on-concrete-hash-type"
 		}
 		tail := all
 		if len(tail) > 600 {
@@ -191,6 +217,7 @@ var c17 = gen.Register(&gen.Check[caseC17]{
 				c.Imports = append(c.Imports, p)
 			}
 		}
+		c.Wrap = gen.Chance(t, "wrap", 1, 4)
 		c.Msg = hex.EncodeToString(gen.Bytes(0, 40).Draw(t, "msg"))
 		dl := rapid.SampledFrom([]int{16, 1, 49, 255, 256, 300}).Draw(t, "dlen")
 		c.Dst = hex.EncodeToString(rapid.SliceOfN(rapid.Byte(), dl, dl).Draw(t, "dst"))
@@ -203,9 +230,11 @@ var c17 = gen.Register(&gen.Check[caseC17]{
 			{Fn: "EncodeToGroup", Msg: "616263", Dst: dst},
 			{Fn: "HashToScalar", Msg: "616263", Dst: dst},
 			{Fn: "HashToScalar", Msg: "", Dst: hex.EncodeToString(bytes.Repeat([]byte{'L'}, 300))},
+			{Fn: "HashToGroup", Msg: "616263", Dst: dst, Wrap: true},
+			{Fn: "HashToScalar", Msg: "616263", Dst: dst, Wrap: true, Imports: []string{"fmt"}},
 		}
 	},
-	Required: []string{"imports:none", "sha256-not-linked-by-others"},
+	Required: []string{"imports:none", "sha256-not-linked-by-others", "registry-replaced"},
 	Run:      runC17,
 })
 
